@@ -312,3 +312,37 @@ M("C03", "tour-no-front-check", "operators.py", "            if candidates[0].fe
 M("C03", "twin-key-tuple", "operators.py", "result = sorted(population, key=functools.cmp_to_key(nondominated_cmp))", "result = sorted(population, key=lambda x: (x.features['front_number'], -x.features['crowding_distance']))", "H")
 M("C03", "twin-cmp-plain", "operators.py", "        if -p.features['crowding_distance'] < -q.features['crowding_distance']:\n            return -1\n        elif -p.features['crowding_distance'] > -q.features['crowding_distance']:\n            return 1", "        if p.features['crowding_distance'] > q.features['crowding_distance']:\n            return -1\n        elif p.features['crowding_distance'] < q.features['crowding_distance']:\n            return 1", "H")
 M("C03", "twin-crowd-len", "operators.py", "for dim in range(len(front[0].costs_signed[:-1])):", "for dim in range(len(front[0].costs_signed) - 1):", "H")
+
+# ---------------------------------------------------------------- C05
+M("C05", "guard-dropped", "job.py", "        if individual.state == individual.State.EVALUATED:\n            return\n", "")
+M("C05", "guard-inverted", "job.py", "        if individual.state == individual.State.EVALUATED:\n            return\n", "        if individual.state != individual.State.EVALUATED:\n            return\n")
+M("C05", "signs-not-applied", "job.py", "individual.calc_signed_costs(self.problem.signs)", "individual.calc_signed_costs([1] * len(costs))")
+M("C05", "no-signed-costs", "job.py", "                if self.problem is not None:\n                    individual.calc_signed_costs(self.problem.signs)  # the idea is to make this conversion only once\n", "")
+M("C05", "costs-modified", "job.py", "                individual.costs = costs\n", "                individual.costs = [abs(c) for c in costs]\n")
+M("C05", "costs-not-stored", "job.py", "                individual.costs = costs\n", "")
+M("C05", "evaluated-before-signed", "job.py", "                individual.costs = costs\n                if self.problem is not None:\n                    individual.calc_signed_costs(self.problem.signs)  # the idea is to make this conversion only once\n\n                # set evaluated\n                individual.state = individual.State.EVALUATED\n", "                individual.costs = costs\n                individual.state = individual.State.EVALUATED\n                if self.problem is not None:\n                    individual.calc_signed_costs(self.problem.signs)\n")
+M("C05", "double-objective-call", "job.py", "                costs = self.problem.surrogate.evaluate(individual)\n", "                costs = self.problem.surrogate.evaluate(individual)\n                costs = self.problem.surrogate.evaluate(individual)\n")
+M("C05", "constraints-hoisted", "job.py", "        for i in range(5):\n            # info\n            individual.features[\"start_time\"] = time.time()\n            t_s = time.time()\n\n            # set in progress\n            individual.state = individual.State.IN_PROGRESS\n\n            # check the constraints\n            constraints = self.problem.evaluate_inequality_constraints(individual.vector)\n", "        constraints = self.problem.evaluate_inequality_constraints(individual.vector)\n        for i in range(5):\n            individual.features[\"start_time\"] = time.time()\n            t_s = time.time()\n            individual.state = individual.State.IN_PROGRESS\n")
+M("C05", "feasible-any", "job.py", 'individual.features["feasible"] = all(v < eps for (v) in constraints)', 'individual.features["feasible"] = any(v < eps for (v) in constraints)')
+M("C05", "feasible-gt", "job.py", 'individual.features["feasible"] = all(v < eps for (v) in constraints)', 'individual.features["feasible"] = all(v > eps for (v) in constraints)')
+M("C05", "feasible-le", "job.py", 'individual.features["feasible"] = all(v < eps for (v) in constraints)', 'individual.features["feasible"] = all(v <= eps for (v) in constraints)')
+M("C05", "feasible-eps-shift", "job.py", "                eps = 0.0\n", "                eps = 1e-3\n")
+M("C05", "marker-without-not", "individual.py", 'self.costs_signed.append(not self.features["feasible"])', 'self.costs_signed.append(self.features["feasible"])')
+M("C05", "marker-first", "individual.py", 'self.costs_signed.append(not self.features["feasible"])', 'self.costs_signed.insert(0, not self.features["feasible"])')
+M("C05", "no-rounding", "individual.py", 'lambda x, y: x * np.round(y, decimals=self.features["precision"])', 'lambda x, y: x * y')
+M("C05", "no-sign-mult", "individual.py", 'lambda x, y: x * np.round(y, decimals=self.features["precision"])', 'lambda x, y: np.round(y, decimals=self.features["precision"])')
+M("C05", "fixed-precision", "individual.py", 'lambda x, y: x * np.round(y, decimals=self.features["precision"])', 'lambda x, y: x * np.round(y, decimals=3)')
+M("C05", "signs-swapped", "problem.py", "                if cost['criteria'] == 'minimize':\n                    self.signs.append(1)\n                else:\n                    self.signs.append(-1)", "                if cost['criteria'] == 'minimize':\n                    self.signs.append(-1)\n                else:\n                    self.signs.append(1)")
+M("C05", "signs-absent-negative", "problem.py", "            else:\n                self.signs.append(1)\n\n        # clean up", "            else:\n                self.signs.append(-1)\n\n        # clean up")
+M("C05", "serial-no-state-test", "operators.py", "            if individual.state == individual.State.EMPTY:\n                individual.costs.append(self.job.evaluate(individual))", "            individual.costs.append(self.job.evaluate(individual))")
+M("C05", "scalar-unsigned", "operators.py", "        self.job.evaluate(individual)\n        return individual.costs_signed[0]", "        self.job.evaluate(individual)\n        return individual.costs[0]")
+M("C05", "scalar-not-recorded", "operators.py", "        # add to problem\n        self.algorithm.problem.individuals.append(individual)\n\n        self.job.evaluate(individual)", "        self.job.evaluate(individual)")
+M("C05", "scalar-double-eval", "operators.py", "        self.job.evaluate(individual)\n        return individual.costs_signed[0]", "        self.job.evaluate(individual)\n        self.job.evaluate(individual.copy())\n        return individual.costs_signed[0]")
+M("C05", "sweep-double-evaluate", "algorithm_sweep.py", "        self.evaluate(individuals)\n", "        self.evaluate(individuals)\n        self.evaluate(individuals)\n")
+M("C05", "sweep-record-twice", "algorithm_sweep.py", "            self.problem.individuals.append(individual)\n", "            self.problem.individuals.append(individual)\n            self.problem.individuals.append(individual)\n")
+M("C05", "nlopt-negated", "algorithm_nlopt.py", "        return self.evaluator.evaluate_scalar(x)", "        return -self.evaluator.evaluate_scalar(x)")
+# twins
+M("C05", "twin-direct-costs", "job.py", "                costs = self.problem.surrogate.evaluate(individual)\n                individual.costs = costs\n", "                individual.costs = self.problem.surrogate.evaluate(individual)\n", "H")
+M("C05", "twin-no-none-test", "job.py", "                if self.problem is not None:\n                    individual.calc_signed_costs(self.problem.signs)  # the idea is to make this conversion only once\n", "                individual.calc_signed_costs(self.problem.signs)\n", "H")
+M("C05", "twin-listcomp-signed", "individual.py", 'self.costs_signed = list(map(lambda x, y: x * np.round(y, decimals=self.features["precision"]), p_signs, self.costs))', 'self.costs_signed = [s * np.round(c, decimals=self.features["precision"]) for s, c in zip(p_signs, self.costs)]', "H")
+M("C04", "remove-via-method", "archive.py", "                    del self._contents[index - number_of_deleted_solutions]\n                    number_of_deleted_solutions += 1\n", "                    self.remove(current_solution)\n")
